@@ -108,6 +108,14 @@ func (hr *histRun) bytes(c content) []byte {
 	return b
 }
 
+// age gives a file that is about to be renamed into place an old modification time (history flag OldMtime).
+func (hr *histRun) age(path string) {
+	if hr.h.OldMtime {
+		past := time.Now().Add(-time.Hour)
+		os.Chtimes(path, past, past)
+	}
+}
+
 type histRun struct {
 	h    *history
 	pool *pairPool
@@ -170,6 +178,7 @@ func (hr *histRun) k8sWriteDir(gen int, c, k content) error {
 		return err
 	}
 	if c.Kind != "missing" {
+		defer func() { hr.age(filepath.Join(d, "tls.crt")); hr.age(filepath.Join(d, "tls.key")) }()
 		if err := os.WriteFile(filepath.Join(d, "tls.crt"), hr.bytes(c), 0o600); err != nil {
 			return err
 		}
@@ -279,6 +288,7 @@ func (hr *histRun) apply(i int, st step) error {
 	case "rename-over":
 		tmp := filepath.Join(hr.dir, fmt.Sprintf(".tmp-%d-%s", i, st.Path))
 		if err = os.WriteFile(tmp, hr.bytes(st.C), 0o600); err == nil {
+			hr.age(tmp)
 			if err = hr.waitHandshakes(st.PauseMid); err == nil {
 				rec.VisibleFrom = hr.stamp()
 				err = os.Rename(tmp, hr.path(st.Path))
